@@ -23,6 +23,7 @@ RULE = (
     "lone backtest of a fresh template (RNG seeded identically before each run) whatever the order and siblings; a second run() changes nothing and calls no algo. "
     "hashseed: the same spec executed in fresh interpreter processes with PYTHONHASHSEED 0, 1, 2 and random gives bit-identical histories. "
     "hashseed_limitdeltas: dated targets that shrink from many names to a few under LimitDeltas with commissions (several held names get their wind-down weight in one call), same comparison across hash seeds. "
+    "value_frames: a target frame handed to WeighTarget by value is edited in place by the caller after the backtest was built; a user algo keeps its state in a pandas Series and two backtests are built from one template: every backtest equals a lone one, the template's algo state is untouched. "
     "dynamic: a strategy without declared children opens sub-strategies while it runs (pairs-trading pattern): the caller's frame and the frame the backtest exposes as .data are unchanged, a second backtest built on that .data equals one built on the original. "
     "twodata: one template run over two data sets (same tickers and dates, different prices) in generated orders within one process; each run equals a lone run of that data in a fresh process. "
     "benchmark: benchmark_random(backtest, template, nsim) builds nsim backtests from the template it is handed: template and data fingerprints unchanged (functions by identity, bound methods with their owner), the template's commission function answers as before although the benchmarked backtest pays commissions, nsim distinct random results. "
@@ -327,6 +328,78 @@ def case_dynamic(ctx, spec):
 
 
 @st.composite
+def value_frames_spec(draw):
+    ds = draw(gen.dates(4, 9, kinds=("bday", "daily")))
+    n = len(ds)
+    tickers = gen.TICKERS[: draw(st.integers(2, 3))]
+    pr = {t: draw(gen.price_path(n, vol=0.02, decimals=4)) for t in tickers}
+    rows = []
+    for _ in range(n):
+        raw = [draw(st.integers(0, 4)) for _ in tickers]
+        tot = float(sum(raw)) or 1.0
+        rows.append([round(r / tot * 0.9, 4) for r in raw])
+    return {"dates": ds, "prices": pr, "targets": rows, "edit": draw(st.sampled_from(["reverse_rows", "zero", "scale"])), "integer_positions": draw(st.booleans())}
+
+
+def case_value_frames(ctx, spec):
+    """frames handed to an algo by value, and state an algo keeps in a pandas object: each backtest owns its copy from construction on - a
+    later in-place edit of the caller's frame, or another backtest of the same template, does not reach it"""
+    bt = ctx.bt
+    data = interp.mk_data(spec)
+    tick = sorted(spec["prices"])
+    tw = pd.DataFrame(spec["targets"], index=data.index, columns=tick)
+
+    def mk(df):
+        return bt.Strategy("s", [bt.algos.WeighTarget(df), bt.algos.Rebalance()])
+
+    def hist(b):
+        return interp.tree_history(b.strategy, bt)
+
+    ref = bt.Backtest(mk(tw.copy()), data.copy(), integer_positions=spec["integer_positions"], progress_bar=False)
+    ref.run()
+    mine = tw.copy()
+    b = bt.Backtest(mk(mine), data, integer_positions=spec["integer_positions"], progress_bar=False)
+    # the caller goes on working with its own frame after the backtest has been built
+    if spec["edit"] == "reverse_rows":
+        mine.iloc[:, :] = mine.to_numpy()[::-1].copy()
+    elif spec["edit"] == "zero":
+        mine.iloc[:, :] = 0.0
+    else:
+        mine.iloc[:, :] = mine.to_numpy() * 0.5
+    b.run()
+    d = first_diff(hist(ref), hist(b))
+    if d:
+        raise Violation("the caller edited its target frame in place (%s) after the backtest was built and before it ran: %s" % (spec["edit"], d), signature="c11:value-frame-shared")
+
+    # state kept by a user algo in a pandas object
+    def _init(self):
+        bt.core.Algo.__init__(self)
+        self.state = pd.Series({"n": 0.0})
+
+    def _call(self, target):
+        self.state["n"] += 1.0
+        target.temp["weights"] = {tick[0]: min(0.9, 0.15 * float(self.state["n"]))}
+        return True
+
+    Ratchet = type("Ratchet", (bt.core.Algo,), {"__init__": _init, "__call__": _call})
+    tpl = bt.Strategy("r", [Ratchet(), bt.algos.Rebalance()])
+    lone = bt.Backtest(bt.Strategy("r", [Ratchet(), bt.algos.Rebalance()]), data.copy(), integer_positions=False, progress_bar=False)
+    lone.run()
+    b1 = bt.Backtest(tpl, data, name="one", integer_positions=False, progress_bar=False)
+    b2 = bt.Backtest(tpl, data, name="two", integer_positions=False, progress_bar=False)
+    b1.run()
+    b2.run()
+    for nm, bb in (("first", b1), ("second", b2)):
+        d = first_diff(hist(lone), hist(bb))
+        if d:
+            raise Violation("two backtests of one template whose algo keeps its state in a pandas Series: the %s differs from a lone backtest: %s" % (nm, d), signature="c11:series-state-shared")
+    if float(tpl.stack.algos[0].state["n"]) != 0.0:
+        raise Violation("running backtests changed the state of the template's own algo (n=%r)" % float(tpl.stack.algos[0].state["n"]), signature="c11:template-mutated:series-state")
+    moved = any(any(abs(x) > 0 for x in row) for row in spec["targets"])
+    return {"nontrivial": moved, "labels": ["edit=" + spec["edit"]]}
+
+
+@st.composite
 def hashseed_limitdeltas_spec(draw):
     """LimitDeltas walks the union of the held children and the targets: when the targets shrink, several held names without a target get
     theirs in one call. The order in which that happens must not depend on the interpreter's string hashing (Rebalance trades, and
@@ -488,8 +561,8 @@ def case_benchmark(ctx, spec):
     return {"nontrivial": spec["nsim"] >= 2, "labels": ["nsim=%d" % spec["nsim"]] + (["benchmarked_backtest_pays_commissions"] if fee else [])}
 
 
-SUBS = {"template": case_template, "hashseed": case_hashseed, "benchmark": case_benchmark, "twodata": case_twodata, "hashseed_limitdeltas": case_hashseed, "dynamic": case_dynamic}
-STRATS = {"template": template_spec, "hashseed": hashseed_spec, "benchmark": benchmark_spec, "twodata": twodata_spec, "hashseed_limitdeltas": hashseed_limitdeltas_spec, "dynamic": dynamic_spec}
+SUBS = {"template": case_template, "hashseed": case_hashseed, "benchmark": case_benchmark, "twodata": case_twodata, "hashseed_limitdeltas": case_hashseed, "dynamic": case_dynamic, "value_frames": case_value_frames}
+STRATS = {"template": template_spec, "hashseed": hashseed_spec, "benchmark": benchmark_spec, "twodata": twodata_spec, "hashseed_limitdeltas": hashseed_limitdeltas_spec, "dynamic": dynamic_spec, "value_frames": value_frames_spec}
 
 
 def shard(ctx):
@@ -497,5 +570,6 @@ def shard(ctx):
     run_sub(ctx, "hashseed", hashseed_spec(), lambda s: case_hashseed(ctx, s), ctx.n(32, 400))
     run_sub(ctx, "benchmark", benchmark_spec(), lambda s: case_benchmark(ctx, s), ctx.n(160, 2000))
     run_sub(ctx, "twodata", twodata_spec(), lambda s: case_twodata(ctx, s), ctx.n(48, 600))
+    run_sub(ctx, "value_frames", value_frames_spec(), lambda s: case_value_frames(ctx, s), ctx.n(320, 4000))
     run_sub(ctx, "dynamic", dynamic_spec(), lambda s: case_dynamic(ctx, s), ctx.n(320, 4000))
     run_sub(ctx, "hashseed_limitdeltas", hashseed_limitdeltas_spec(), lambda s: case_hashseed(ctx, s), ctx.n(48, 600))
